@@ -326,7 +326,8 @@ type c11Enum struct {
 func c11Enumerate(maxSvc int, full bool) []*c11Case {
 	alpha := c11Alphabet()
 	if !full {
-		alpha = []c11Outcome{alpha[0], alpha[1], alpha[2], alpha[4], alpha[9], alpha[7], alpha[10]}
+		// class representatives: 200 stored 1, 200 stored 2, 403 and 503 (not retried), 500 and no response (retried)
+		alpha = []c11Outcome{alpha[0], alpha[1], alpha[4], alpha[9], alpha[7], alpha[10]}
 	}
 	var out []*c11Case
 	for nsvc := 1; nsvc <= maxSvc; nsvc++ {
